@@ -1,9 +1,9 @@
 package main
 
 import (
-	"hash/fnv"
 	"errors"
 	"fmt"
+	"hash/fnv"
 	"math"
 	"reflect"
 	"strconv"
@@ -426,6 +426,18 @@ func locations(c *caseT, docIdx int, n int, rec *recorder) string {
 						loc += "!getStaleAfterDirectUpdate"
 						break
 					}
+				}
+			}
+			// Set stores whatever value it is given at that location — nil, a scalar, a container — and nothing else changes
+			for _, v := range []interface{}{nil, true, map[string]interface{}{"s": 1.0}, []interface{}{"s"}, ""} {
+				if found[0] == "" {
+					break
+				}
+				acc.Set(v)
+				want := buildDoc(c.Docs[docIdx])
+				if !setAt(want, found[0], v) || render(doc) != render(want) {
+					loc += "!setValueKind"
+					break
 				}
 			}
 			out[i] = loc
